@@ -154,7 +154,7 @@ Proof. unfold dcs. rewrite map_map. reflexivity. Qed.
 (* relation between an original entry and the entry substitution produces for it *)
 Definition entry_rel (d : list (key * value)) (e0 e : dentry) : Prop :=
   de_key e = de_key e0 /\
-  ((e = e0) \/
+  ((assoc (de_key e0) d = None /\ e = e0) \/
    (exists sch x s', de_schema e0 = Some sch /\ assoc (de_key e0) d = Some x /\
                      substitute sch x = Ok s' /\ de_schema e = Some s' /\ de_opt e = false)).
 
@@ -174,7 +174,19 @@ Proof.
   - rewrite (Hne _ _ Ea) in He. destruct o as [sch|]; [|discriminate].
     apply bind_ok in He as (s' & Hs' & He). inversion He; subst.
     split; [reflexivity|]. right. exists sch, x, s'. repeat split; auto.
-  - inversion He; subst. split; [reflexivity|]. left. reflexivity.
+  - inversion He; subst. split; [reflexivity|]. left. split; [exact Ea | reflexivity].
+Qed.
+
+Lemma subst_dict_declared ents0 d ents :
+  subst_dict_entries (dfs ents0) d = Ok ents ->
+  has_key KEll d = false /\ forall k x, In (k, x) d -> In k (map de_key ents0).
+Proof.
+  intros H. unfold subst_dict_entries in H.
+  destruct (has_key KEll d); [discriminate|]. split; auto.
+  apply bind_ok in H as (ents' & Hr & H).
+  destruct (forallb _ d) eqn:Ef; [|discriminate].
+  intros k x Hin. rewrite forallb_forall in Ef. specialize (Ef _ Hin). simpl in Ef.
+  apply declared_In in Ef. unfold dfs in Ef. rewrite map_map in Ef. exact Ef.
 Qed.
 
 Definition narrowP (s : schema) : Prop :=
@@ -205,7 +217,7 @@ Proof.
     inversion E; subst; clear E.
     destruct (FromNativeSpec.Forall2_In_l _ _ _ _ Hrel Hin) as (e & Hine & Hke & Hcase).
     rewrite Forall_forall in HP.
-    destruct Hcase as [->|(sch & x & s' & Hsch & Ha & Hsub & Hs' & Ho)].
+    destruct Hcase as [[_ ->]|(sch & x & s' & Hsch & Ha & Hsub & Hs' & Ho)].
     + apply H1; auto. unfold dcs. apply in_map_iff. exists e0. auto.
     + specialize (H1 (de_key e0) (Some (conforms s')) false).
       assert (Hm : In (de_key e0, (Some (conforms s'), false)) (dcs ents)).
